@@ -91,3 +91,18 @@ Theorem C13_request_without_cache_lock_refuted :
   q_signalled s = 3 /\ nth_error (q_reqs s) 1 = Some (QDone 3 2).
 Proof. exact without_lock_refuted. Qed.
 Print Assumptions C13_request_without_cache_lock_refuted.
+
+(* the same with the two records of the failure found on the code: the epoch record and a node record
+   that retains two versions, selected "as of" the epoch the request read.  With the lock every answer
+   names (a, version a) or is an error; without it: (a + 1, version a), on the code (3, root hash of epoch 2) *)
+Theorem C13_answers_name_their_epoch : forall e0 n sched,
+  let s := trun2 true (tinit e0 n) sched in
+  forall i a r, nth_error (t_reqs s) i = Some (TDone a r) -> r = Some a \/ r = None.
+Proof. exact answers_name_their_epoch. Qed.
+Print Assumptions C13_answers_name_their_epoch.
+
+Theorem C13_two_records_without_lock_refuted :
+  let s := trun2 false (tinit 2 2) [QR 0; QR 0; QR 0; QX; QF; QR 0; QR 1; QR 1] in
+  t_azks s = 3 /\ nth_error (t_reqs s) 1 = Some (TDone 3 (Some 2)).
+Proof. exact two_records_without_lock_refuted. Qed.
+Print Assumptions C13_two_records_without_lock_refuted.
